@@ -67,6 +67,21 @@ CLAIMS['C16'] = dict(
          'allocation counts <= 2^16; single-threaded model of atomic_add.',
     technique=TECH_A + '; ' + TECH_B, design='3 (C16)')
 
+CLAIMS['C12'] = dict(
+    text='Exact real arithmetic over ALL surface parameters, positions and directions: QuadraticSolver contract (roots positive, on the quadratic, ascending, '
+         'complete for |a|>=min_a); for every quadric type the coefficients handed to the solver satisfy f(pos+t dir)=a t^2+2(b/2)t+c for a free t and the '
+         'answer is passed through; planes directly; calc_sense = sign f; calc_normal = unit gradient; SurfaceTranslator (every overload) and '
+         'SurfaceTransformer(GeneralQuadric) preserve the point set. Found and fixed defect F2 (SimpleQuadric translation).',
+    note='Real-mode abstraction: algebraic correctness only (no rounding/cancellation/NaN); Involute, SurfaceSimplifier, remaining transformer overloads, '
+         'SignedPermutation and the |a|<min_a regime are outside; QuadraticSolver entry points are cut to recorders for the coefficient identities.',
+    technique=TECH_B + ' (real-arithmetic mode, QF_NRA, z3 nlsat)', design='3 (C12)')
+CLAIMS['C11'] = dict(
+    text='CalcSafetyDistance in exact real arithmetic: for PlaneAligned and CylCentered (quick; Plane/Sphere/SphereCentered in the thorough tier) the safety is '
+         '>= 0 and no surface point along any ray is nearer; surface types without simple safety return exactly 0.',
+    note='Per-surface functor only: the min over faces/levels in the trackers and the MSC consumers are not covered; sphere/plane queries may stay undecided '
+         'within the time budget (reported as not discharged).',
+    technique=TECH_B + ' (real-arithmetic mode)', design='3 (C11)')
+
 NOT_APPLICABLE = {
     'C07': 'quantifies over interleavings of host threads driving whole Steppers over shared_ptr/std::vector/OpenMP state: no installed engine '
            'models concurrent libstdc++ (CBMC C++ front end cannot parse it; own IR executors are single-threaded). See DESIGN.md C07.',
